@@ -583,6 +583,130 @@ fn near_tie_check(v: Variant, m: usize, st: &mut Stats, nears: &mut u64) -> Vec<
     out
 }
 
+/// larger weighted sets (pruning paths that tiny sets never reach): several insertion orders and entry points must agree
+fn large_set_orders(v: Variant, m: usize, nsets: u64, n: u64, st: &mut Stats) -> Vec<Finding> {
+    let mut out = Vec::new();
+    let wtab = [0.3, 0.5, 1.0, 1.0, 1.5, 2.0, 3.0, 4.5, 7.0, 11.0, 16.0, 40.0, 250.0];
+    for si in 0..nsets {
+        let base = 1_000_000 * (si + 1);
+        let ws: Vec<(u64, f64)> = (0..n).map(|i| (base + i, wtab[(crate::common::splitmix64(base + i) % wtab.len() as u64) as usize])).collect();
+        let mut rev = ws.clone();
+        rev.reverse();
+        let mut shuf = ws.clone();
+        shuf.sort_by_key(|x| crate::common::splitmix64(x.0 ^ 0xABCDEF));
+        let reference = match run_variant(v, canonical_entry(v), m, &ws).unwrap() {
+            Ok(r) => r,
+            Err(p) => {
+                out.push(Finding { key: format!("panic:{:?}", v), what: p, case: json!({"kind": "large", "variant": format!("{:?}", v), "m": m, "set": si, "n": n}) });
+                continue;
+            }
+        };
+        for (oname, ord) in [("reversed", &rev), ("shuffled", &shuf), ("forward", &ws)] {
+            for e in [Entry::Item, Entry::IdxMap, Entry::HashMap, Entry::Split(ord.len() / 3)] {
+                let r = match run_variant(v, e, m, ord) {
+                    None => continue,
+                    Some(r) => r,
+                };
+                st.execs += 1;
+                if r.as_ref().ok() != Some(&reference) {
+                    let nd = match &r {
+                        Ok(x) => x.0.iter().zip(reference.0.iter()).filter(|(a, b)| a != b).count(),
+                        Err(_) => m,
+                    };
+                    out.push(Finding {
+                        key: format!("not-a-set-function:{:?}", v),
+                        what: format!("{:?} m={}: a weighted set of {} items (13 weight classes, set #{}) inserted in {} order through {:?} differs from the forward order in {} of {} positions", v, m, n, si, oname, e, nd, m),
+                        case: json!({"kind": "large", "variant": format!("{:?}", v), "m": m, "set": si, "n": n}),
+                    });
+                    return out;
+                }
+            }
+        }
+        // ProbMinHash3 and 3a agree on large sets too
+        if v == Variant::P3a {
+            st.execs += 1;
+            if let Some(Ok(p3)) = run_variant(Variant::P3, Entry::Item, m, &ws) {
+                if p3 != reference {
+                    out.push(Finding {
+                        key: "p3-vs-p3a".into(),
+                        what: format!("m={}: ProbMinHash3 and ProbMinHash3a differ on a weighted set of {} items (set #{})", m, n, si),
+                        case: json!({"kind": "large", "variant": "P3a", "m": m, "set": si, "n": n}),
+                    });
+                    return out;
+                }
+            }
+        }
+    }
+    out
+}
+
+/// the placeholder object passed to `new` may itself be an item of the stream (the documentation suggests 0 for numeric
+/// ids): order independence and ProbMinHash3 == ProbMinHash3a must hold then too
+fn placeholder_alias_check(m: usize, st: &mut Stats) -> Vec<Finding> {
+    let mut out = Vec::new();
+    let items = [0u64, 1, 2, 3];
+    let weights = [1.0, 2.0, 0.5, 3.0];
+    for init in [0u64, 2] {
+        for mask in 1u32..16 {
+            let ws: Vec<(u64, f64)> = (0..4).filter(|i| mask & (1 << i) != 0).map(|i| (items[i], weights[i])).collect();
+            let mut results: Vec<(String, Vec<u64>)> = Vec::new();
+            for ord in all_orders(ws.len()) {
+                let ows: Vec<(u64, f64)> = ord.iter().map(|i| ws[*i]).collect();
+                let r = guarded_mut(|| {
+                    let mut v: Vec<(String, Vec<u64>)> = Vec::new();
+                    let mut h2 = ProbMinHash2::<u64, FnvHasher>::new(m, init);
+                    let mut h3 = ProbMinHash3::<u64, FnvHasher>::new(m, init);
+                    for (k, w) in &ows {
+                        h2.hash_item(*k, *w);
+                        h3.hash_item(*k, w);
+                    }
+                    let mut h3a = ProbMinHash3a::<u64, FnvHasher>::new(m, init);
+                    let im: IndexMap<u64, f64> = ows.iter().cloned().collect();
+                    h3a.hash_weigthed_idxmap(&im);
+                    v.push(("ProbMinHash2".into(), h2.get_signature().clone()));
+                    v.push(("ProbMinHash3".into(), h3.get_signature().clone()));
+                    v.push(("ProbMinHash3a".into(), h3a.get_signature().clone()));
+                    v
+                });
+                st.execs += 3;
+                match r {
+                    Err(p) => {
+                        out.push(Finding { key: "panic:placeholder-alias".into(), what: p, case: json!({"kind": "alias", "m": m, "init": init, "ws": ws_json(&ows)}) });
+                        return out;
+                    }
+                    Ok(v) => {
+                        if results.is_empty() {
+                            results = v.clone();
+                            if v[1].1 != v[2].1 {
+                                out.push(Finding {
+                                    key: "p3-vs-p3a".into(),
+                                    what: format!("m={} placeholder object {} (also an item id): ProbMinHash3 gives {:?}, ProbMinHash3a gives {:?} for {:?}", m, init, v[1].1, v[2].1, ows),
+                                    case: json!({"kind": "alias", "m": m, "init": init, "ws": ws_json(&ows)}),
+                                });
+                                return out;
+                            }
+                        }
+                        for i in 0..3 {
+                            if v[i].1 != results[i].1 {
+                                out.push(Finding {
+                                    key: format!("not-a-set-function:{}:placeholder-is-an-item", v[i].0),
+                                    what: format!(
+                                        "{} m={} built with placeholder object {} (which is also an item id): inserting {:?} gives {:?}, another order of the same weighted set gives {:?}",
+                                        v[i].0, m, init, ows, v[i].1, results[i].1
+                                    ),
+                                    case: json!({"kind": "alias", "m": m, "init": init, "ws": ws_json(&ows)}),
+                                });
+                                return out;
+                            }
+                        }
+                    }
+                }
+            }
+        }
+    }
+    out
+}
+
 /// weights between the smallest positive normal number and 1e-305
 fn tiny_weight_probe(ctx: &Ctx, st: &mut Stats) {
     for v in VARIANTS {
@@ -644,6 +768,24 @@ pub fn run(ctx: &Ctx) -> i32 {
             per.push(json!({"variant": format!("{:?}", v), "m": m, "items": ni, "executions": st.execs - before}));
         }
     }
+    for &m in &ms {
+        for f in placeholder_alias_check(m, &mut st) {
+            ctx.violation(&f.key, &f.what, f.case);
+        }
+    }
+    // larger sets
+    let (nsets, nbig) = ctx.pick((40u64, 2000u64), (300u64, 2000u64));
+    for v in VARIANTS {
+        if v == Variant::P3aShaStr {
+            continue;
+        }
+        for &(m, n) in &[(256usize, nbig), (64, 300), (16, 50)] {
+            let ns = if v == Variant::P3aShaU64 { nsets / 4 } else { nsets };
+            for f in large_set_orders(v, m, ns, n, &mut st) {
+                ctx.violation(&f.key, &f.what, f.case);
+            }
+        }
+    }
     // ProbMinHash3 and ProbMinHash3a give the same signature
     let mut same = 0u64;
     for &m in &ms {
@@ -698,7 +840,7 @@ pub fn run(ctx: &Ctx) -> i32 {
         "exhaustive": true,
         "evaluations": st.execs,
         "distinct_nontrivial": st.distinct_sigs,
-        "rule": "for ProbMinHash2, 3, 3a (Fnv and no-op hashers), 3a-Sha (u64 and String keys), m in {2,3,4,8,16,(33)}: every non-empty weighted set over 4 (5) items x weights {absent,0.5,1,3,1e-300,1e300}, ALL insertion orders, every entry point (hash_item, hash_wset, IndexMap, std HashMap), every 2-way batch split, every re-insertion of an already inserted pair at every later point; registers (hook H2) must equal the position-wise minimum and the signature the argmin of the REAL single-item runs (exact; bit-equal ties are classified and only checked for membership), every position holds an item of the set; plus forced near-ties (weights tuned from the real single-item runs so that two items differ by 1e-9 .. 3e-15 relative at a chosen position, both orders), weight scaling by 2^k, the union clause on sets up to 300 items, ProbMinHash3 == ProbMinHash3a on all 1295 sets, and single items with weights down to the smallest normal float; distinct = distinct signatures",
+        "rule": "for ProbMinHash2, 3, 3a (Fnv and no-op hashers), 3a-Sha (u64 and String keys), m in {2,3,4,8,16,(33)}: every non-empty weighted set over 4 (5) items x weights {absent,0.5,1,3,1e-300,1e300}, ALL insertion orders, every entry point (hash_item, hash_wset, IndexMap, std HashMap), every 2-way batch split, every re-insertion of an already inserted pair at every later point; registers (hook H2) must equal the position-wise minimum and the signature the argmin of the REAL single-item runs (exact; bit-equal ties are classified and only checked for membership), every position holds an item of the set; plus forced near-ties (weights tuned from the real single-item runs so that two items differ by 1e-9 .. 3e-15 relative at a chosen position, both orders), weight scaling by 2^k, the union clause on sets up to 300 items, ProbMinHash3 == ProbMinHash3a on all 1295 sets, all subsets of 4 items in all orders with a placeholder object that is itself an item id, 40 (300) sets of 2000 / 300 / 50 items with 13 weight classes in forward / reversed / shuffled order through every entry point (m = 256 / 64 / 16), and single items with weights down to the smallest normal float; distinct = distinct signatures",
         "weighted_sets": st.sets,
         "forced_near_ties": nears,
         "exact_ties_classified": st.ties,
@@ -731,6 +873,21 @@ pub fn replay(_ctx: &Ctx, case: &Value) -> Result<(bool, String), String> {
                 Err(_) => false,
             };
             Ok((a != b || !member, format!("same as sorted order: {}; every position holds an item of the set: {}", a == b, member)))
+        }
+        Some("large") => {
+            let v = parse_variant(case["variant"].as_str().ok_or("variant")?).ok_or("variant")?;
+            let m = case["m"].as_u64().ok_or("m")? as usize;
+            let n = case["n"].as_u64().ok_or("n")?;
+            let si = case["set"].as_u64().ok_or("set")?;
+            let mut st = Stats::default();
+            let f = large_set_orders(v, m, si + 1, n, &mut st);
+            Ok((!f.is_empty(), f.first().map(|x| x.what.clone()).unwrap_or_else(|| "orders agree".into())))
+        }
+        Some("alias") => {
+            let m = case["m"].as_u64().ok_or("m")? as usize;
+            let mut st = Stats::default();
+            let f = placeholder_alias_check(m, &mut st);
+            Ok((!f.is_empty(), f.first().map(|x| x.what.clone()).unwrap_or_else(|| "holds".into())))
         }
         Some("p3p3a") => {
             let m = case["m"].as_u64().ok_or("m")? as usize;
